@@ -966,7 +966,11 @@ func finish(s *Spec, o Options, rec *Rec, cases int, wall time.Duration) int {
 	}
 	sort.Strings(sigs)
 	exit := 0
-	rdir := filepath.Join(o.VerifDir, "replays", s.ID)
+	outDir := o.VerifDir
+	if d := os.Getenv("VERIF_OUT_DIR"); d != "" { // drills write their evidence/replays elsewhere
+		outDir = d
+	}
+	rdir := filepath.Join(outDir, "replays", s.ID)
 	for i, sg := range sigs {
 		v := rec.viol[sg]
 		exit = 1
@@ -1038,8 +1042,8 @@ func finish(s *Spec, o Options, rec *Rec, cases int, wall time.Duration) int {
 		"violations": len(sigs),
 	}
 	b, _ := json.MarshalIndent(ev, "", " ")
-	os.MkdirAll(filepath.Join(o.VerifDir, "evidence"), 0o755)
-	if err := os.WriteFile(filepath.Join(o.VerifDir, "evidence", s.ID+".json"), b, 0o644); err != nil {
+	os.MkdirAll(filepath.Join(outDir, "evidence"), 0o755)
+	if err := os.WriteFile(filepath.Join(outDir, "evidence", s.ID+".json"), b, 0o644); err != nil {
 		fmt.Printf("INCONCLUSIVE property=%s reason=cannot write evidence: %v\n", s.ID, err)
 		if exit == 0 {
 			exit = 2
